@@ -158,12 +158,21 @@ def run(ctx):
     for _ in range(nfe):
         jobs += ["8", "9", "16", "32"]
     rng.shuffle(jobs)
+    # "all byte strings": every length of the range occurs in every run (walked through by a counter per front end), the usual
+    # PDU lengths fill the rest - a front end that treats ONE length specially (a 12-octet "whole PDU") is not a matter of the draw
+    nth = {"8": 0, "9": 0, "16": 0, "32": 0}
+
+    def length(kind, usual, top):
+        nth[kind] += 1
+        n_ = nth[kind]
+        return (n_ // 2) % (top + 1) if n_ % 2 == 0 else rng.choice(usual)
+
     for k in jobs:
         if k == "8":
-            bits = bitarray([rng.getrandbits(1) for _ in range(rng.choice([28, 28, rng.randrange(0, 90)]))])
+            bits = bitarray([rng.getrandbits(1) for _ in range(length("8", [28], 90))])
             fe8(bits, CRC8.calculate(bits.copy()))
         elif k == "9":
-            data = fill(rng.choice([6, 10, 12, 16, 18, 22, rng.randrange(0, 30)]))
+            data = fill(length("9", [6, 10, 12, 16, 18, 22], 30))
             dbsn = rng.randrange(128)
             m = rng.choice([CrcMasks.Rate12DataContinuation, CrcMasks.Rate34DataContinuation, CrcMasks.Rate1DataContinuation])
             # the CRC-32 part as four octets, including the values an "is it there?" test could mistake for absent
@@ -177,7 +186,7 @@ def run(ctx):
             fe9(data, dbsn, m.value, c32, CRC9.calculate_from_parts(form(data) if form is not memoryview else data, dbsn, m,
                                                                     crc32=None if c32 is None else (int.from_bytes(c32, "big") if as_int else form(c32))))
         elif k == "16":
-            data = fill(rng.choice([10, 10, rng.randrange(0, 40)]))
+            data = fill(length("16", [10], 40))
             m = rng.choice(masks)
             buf = bytearray(data) if rng.random() < 0.5 else gen.as_caller_bytes(data, len(fe))
             CRC16.calculate(buf, m)
@@ -187,7 +196,7 @@ def run(ctx):
             if bytes(buf) != data:
                 fe16(data, m.value, out ^ 1, False, True)
         else:
-            data = fill(rng.choice([rng.randrange(0, 60), rng.randrange(0, 60), 20]))
+            data = fill(length("32", [20, rng.randrange(0, 60)], 60))
             # half of the callers own a mutable buffer and use it for several calls (calculate, calculate again, verify)
             buf = bytearray(data) if rng.random() < 0.5 else gen.as_caller_bytes(data, len(fe))
             CRC32.calculate(buf)
